@@ -99,6 +99,8 @@ func run2(f []string) (string, bool) {
 		return heldBytes(f[0], b, err)
 	case "lpad":
 		return okStr(otp.LeftPadHex(string(unhx(f[1])), int(i64(f[2])))), true
+	case "mhex": // a documented Must* helper: a panic is its way of refusing
+		return heldBytes(f[0], otp.MustHexPadLeft(string(unhx(f[1])), int(i64(f[2]))), nil)
 	case "phexts":
 		b, err := otp.ParseHexTimestamp(string(unhx(f[1])))
 		return heldBytes(f[0], b, err)
